@@ -138,6 +138,7 @@ def examine(prop, r, mobs, mbits):
 def stats_of(r):
     c = collections.Counter()
     started = 0
+    had_next = set()        # (pool, task id) of workers that have gone on to a later await
     for ln, o in zip(r["lines"], r["obs"]):
         t = ln.split()
         if not t:
@@ -146,6 +147,25 @@ def stats_of(r):
         c["op:" + op] += 1
         if o.startswith("r=err:"):
             c["err:" + o.split(" ")[0][6:]] += 1
+        # workers with several suspension points (modes g1 / g2): accepted requests / pools carrying one, the events `N`
+        # (went on to the next await), and the cancellations delivered at a later await (X or Y after an N)
+        wm = (t[5] if op == "apply" and len(t) > 5 else t[7] if op == "map" and len(t) > 7 else
+              t[4] if t[0] == "mkpool" and len(t) > 4 and t[1] == "simple" else "")
+        if len(wm) > 1 and wm[0] == "g" and wm[1:].isdigit() and int(wm[1:]) > 0 and o.startswith("r=name:"):
+            c["ma:specs_accepted"] += 1
+        for pi, sec in enumerate(o.split(" ## ")[1:]):
+            if " ev=" not in sec:
+                continue
+            for e in sec.split(" ev=")[1].split(" ")[0].split(","):
+                if e[:1] == "N" and e[1:].isdigit():
+                    c["ma:N_events"] += 1
+                    if (pi, e[1:]) not in had_next:
+                        had_next.add((pi, e[1:]))
+                        c["ma:workers_reaching_a_later_await"] += 1
+                elif e[:1] in "XY" and e[1:].isdigit() and (pi, e[1:]) in had_next:
+                    c["ma:cancellations_delivered_at_a_later_await"] += 1
+                elif e[:1] == "E" and e[1:].isdigit() and (pi, e[1:]) in had_next:
+                    c["ma:exceptions_at_a_later_await"] += 1
         started += o.count("S") if False else sum(1 for sec in o.split(" ## ")[1:] for e in
                                                   (sec.split(" ev=")[1].split(" ")[0].split(",") if " ev=" in sec else [])
                                                   if e[:1] == "S")
@@ -311,6 +331,7 @@ def run(prop, tier, seed, jobs, proof, out):
         "monitor_findings": {"new": len(new_mons), "attributed_to_known_findings": dict(attributed)},
         "op_histogram": {k: v for k, v in sorted(agg["stats"].items()) if k.startswith("op:")},
         "error_kinds": {k: v for k, v in sorted(agg["stats"].items()) if k.startswith("err:")},
+        "multi_await_workers": {k[3:]: v for k, v in sorted(agg["stats"].items()) if k.startswith("ma:")},
         "corpus_histories": len(bodies),
         "projection": {"fields": props.PROJ[prop][0], "events": list(props.PROJ[prop][1])},
         "exhaustive": False,
@@ -319,7 +340,9 @@ def run(prop, tier, seed, jobs, proof, out):
           "assumptions": [
               "theorems are about the hand-written Lean model lean/Taskpool/Model; the tie to /repo is this run's "
               "lock-step correspondence (bounded: sizes 0-4/unbounded, <= 3 pools, <= 6 items, FIFO handle order)",
-              "workers/callbacks/iterators are harness scripts: one suspension point per worker; callbacks plain, "
+              "workers/callbacks/iterators are harness scripts: a worker returns / raises at once or awaits 1-3 harness "
+              "futures in a row (a cancellation may arrive at any of them; it lets it through, or catches it and "
+              "returns, or catches the first one and goes on); callbacks plain, "
               "coroutine (gated) or raising; user-code pool calls limited to the hook alphabet (no set_size)",
               "CPython 3.12.1 asyncio semantics as modelled (Task, Semaphore, Event, gather)"]}
     return ev
